@@ -763,7 +763,10 @@ class SymEx:
             st.events.append(('call', ext, tuple(args), line, b.nid, self.place_key(b, st, dest)))
             return ('aggr', RESULT, 'Ok', (args[0],))
         if ext in UNWRAP_CALLS and args:
-            return self.payload_of(st, self.load(st, args[0], b), ext)
+            o = self.load(st, args[0], b)
+            known = (o[0] == 'aggr' and o[2] in ('Some', 'Ok')) or st.known.get(('discr', o)) == (1 if 'option' in ext else 0)
+            st.events.append(('unwrap', ext, o, bool(known), line, b.nid))
+            return self.payload_of(st, o, ext)
         if args and is_identity_call(ext):
             return args[0]
         if ext == 'std::default::Default::default' or ext.endswith(' as std::default::Default>::default'):
